@@ -317,7 +317,13 @@ func runGenPrimeRoutine(
 					q.BitLen() == qBitLen {
 
 					if sgp := (&GermainSafePrime{p: p, q: q}); sgp.Validate() {
-						primeCh <- &GermainSafePrime{p: p, q: q}
+						// Do not block on a full channel once the consumer has
+						// all the primes it asked for and is waiting for us.
+						select {
+						case primeCh <- &GermainSafePrime{p: p, q: q}:
+						case <-ctx.Done():
+							return
+						}
 					}
 					p, q = new(big.Int), new(big.Int)
 				}
